@@ -22,7 +22,7 @@ def main():
         rec = Recorder(ad, cfg, tier, int(seed), with_leaves=bool(int(wl))).run()
         rec.write(out)
         print(json.dumps({"ok": True, "events": rec.n_events, "probes": rec.n_probe, "episodes": rec.n_episodes,
-                          "wall": round(time.time() - t0, 2), "lines": len(rec.lines)}))
+                          "wall": round(time.time() - t0, 2), "lines": len(rec.lines), "policy_fallbacks": rec.policy_fallbacks}))
     except Exception as e:  # noqa: BLE001
         # An exception while driving the real code is reported to the caller, which decides whether it is
         # a property violation (the code under test raised) or a machinery failure.
